@@ -154,7 +154,7 @@ structure QA where
   mcastNow : Dict
   mcastAgg : Dict
   mcastLast : Dict
-  deriving Repr, Inhabited
+  deriving Repr, Inhabited, DecidableEq
 
 def QR.answers (qr : QR) : QA :=
   let f := fun (s : List RecId) => s.map (fun r => (r, qr.additionals.get r))
@@ -248,6 +248,16 @@ def popReady (now : Int) : List Group → Dict → List Group × Dict
 /-- `_remove_answers_from_queue` -/
 def removeAnswers (gs : List Group) (batch : Dict) : List Group :=
   gs.map (fun g => { g with answers := batch.keys.foldl Dict.erase g.answers })
+
+/-- `async_remove_answers(records)` (the repair of D5, 07342aa; called on both queues by `async_unregister_service` and
+`generate_unregister_all_services`): every pending group loses the answers that are withdrawn, the answers that stay lose the
+withdrawn additionals.  Groups are kept even when they become empty (`async_ready` then sends nothing for them).
+`Dict.withdraw` is the dict comprehension, `Queue.removeRecords` the loop over the pending groups. -/
+def Dict.withdraw (d : Dict) (remove : List RecId) : Dict :=
+  (d.filter (fun e => Gen.Reply.q_remove_keep (remove.contains e.1))).map (fun e => (e.1, e.2.filter (fun a => !remove.contains a)))
+
+def Queue.removeRecords (q : Queue) (remove : List RecId) : Queue :=
+  { q with groups := q.groups.map (fun g => { g with answers := g.answers.withdraw remove }) }
 
 /-- `async_ready()` at loop time `now`: new state and the batch that is multicast (if any) -/
 def Queue.ready (q : Queue) (now : Int) : Queue × Option Dict :=
@@ -379,10 +389,13 @@ inductive Ev where
   | tcfire (t : Int) (addr : Nat) (seen : SeenMap) (draws : List Int)
   /-- `async_ready` of the aggregation queue (`delayed = false`) or the protected queue -/
   | qfire (t : Int) (delayed : Bool)
+  /-- `async_remove_answers(recs)` on the aggregation / protected queue: the registry changed (a service was unregistered)
+  while answers may be queued -/
+  | qremove (t : Int) (delayed : Bool) (recs : List RecId)
   deriving Repr
 
 def Ev.time : Ev → Int
-  | .rx t .. => t | .tcfire t .. => t | .qfire t .. => t
+  | .rx t .. => t | .tcfire t .. => t | .qfire t .. => t | .qremove t .. => t
 
 /-- the loop never lets the clock pass a due timer -/
 def Host.notOverdue (h : Host) (t : Int) : Bool :=
@@ -410,6 +423,8 @@ inductive Act where
   | answer (lis : Listener) (pkts : List Pkt) (addr port : Nat)
   /-- `async_ready` of the aggregation (`false`) or the protected (`true`) queue -/
   | ready (delayed : Bool)
+  /-- `async_remove_answers(recs)` on the aggregation (`false`) or the protected (`true`) queue -/
+  | remove (delayed : Bool) (recs : List RecId)
   deriving Repr
 
 /-- `_respond_query`'s bookkeeping: the listener afterwards and the packets handed on -/
@@ -445,12 +460,13 @@ def Host.decide (h : Host) : Ev → Except String Act
       else .ok (.answer (h.lis.take none addr).1 (h.lis.take none addr).2 addr tm.port)
   | .qfire t delayed =>
     if (if delayed then h.delayQ else h.outQ).timer ≠ some t then .error "timer-not-due" else .ok (.ready delayed)
+  | .qremove _ delayed recs => .ok (.remove delayed recs)
 
 def Ev.seen : Ev → SeenMap
-  | .rx _ _ _ _ _ _ _ s _ => s | .tcfire _ _ s _ => s | .qfire _ _ => []
+  | .rx _ _ _ _ _ _ _ s _ => s | .tcfire _ _ s _ => s | .qfire _ _ => [] | .qremove .. => []
 
 def Ev.draws : Ev → List Int
-  | .rx _ _ _ _ _ _ _ _ d => d | .tcfire _ _ _ d => d | .qfire _ _ => []
+  | .rx _ _ _ _ _ _ _ _ d => d | .tcfire _ _ _ d => d | .qfire _ _ => [] | .qremove .. => []
 
 /-- carrying the action out at loop time `t` -/
 def Host.perform (h : Host) (t : Int) (seen : SeenMap) (draws : List Int) : Act → Except String StepOut
@@ -465,6 +481,8 @@ def Host.perform (h : Host) (t : Int) (seen : SeenMap) (draws : List Int) : Act 
     let (q', batch) := q.ready t
     let h' := if delayed then { h with delayQ := q' } else { h with outQ := q' }
     .ok { host := h', outs := match batch with | some b => [Out.ofMcast b] | none => [] }
+  | .remove delayed recs =>
+    .ok { host := if delayed then { h with delayQ := h.delayQ.removeRecords recs } else { h with outQ := h.outQ.removeRecords recs } }
 
 /-- one atomic block of the host: the clock has not passed a due timer, then `decide` and `perform` -/
 def Host.step (h : Host) (e : Ev) : Except String StepOut :=
